@@ -333,9 +333,10 @@ class SystemModel:
 class ManifoldModel:
     """Manifold.compute with argument sets that differ in one field: the result must belong to the arguments of the *last* call"""
     name = "manifold"
-    OPS = ["C_coarse_small", "C_coarse_big", "C_fine_small", "R_traj"]
-    MUTATORS = {"C_coarse_small", "C_coarse_big", "C_fine_small"}
-    ARGS = {"C_coarse_small": dict(step=0.5, displacement=1e-6), "C_coarse_big": dict(step=0.5, displacement=1e-4), "C_fine_small": dict(step=0.25, displacement=1e-6)}
+    OPS = ["C_coarse_small", "C_coarse_big", "C_fine_small", "C_coarse_small_dt", "R_traj"]
+    MUTATORS = {"C_coarse_small", "C_coarse_big", "C_fine_small", "C_coarse_small_dt"}
+    ARGS = {"C_coarse_small": dict(step=0.5, displacement=1e-6, dt=1e-2), "C_coarse_big": dict(step=0.5, displacement=1e-4, dt=1e-2),
+            "C_fine_small": dict(step=0.25, displacement=1e-6, dt=1e-2), "C_coarse_small_dt": dict(step=0.5, displacement=1e-6, dt=1e-3)}
 
     def _orbit(self):
         if "man_orbit" not in _L:
@@ -350,7 +351,7 @@ class ManifoldModel:
         from hiten.system.manifold import Manifold
         man = Manifold(self._orbit(), stable=False, direction="positive")
         if logical["args"] is not None:
-            man.compute(integration_fraction=0.05, dt=1e-2, show_progress=False, **self.ARGS[logical["args"]])
+            man.compute(integration_fraction=0.05, show_progress=False, **self.ARGS[logical["args"]])
         return man
 
     def initial(self):
@@ -361,12 +362,13 @@ class ManifoldModel:
         if not tr:
             return ("none",)
         seeds = np.array([np.asarray(t.states)[0] for t in tr])
-        return (len(tr), seeds[0], seeds[-1])
+        first = np.asarray(tr[0].states)
+        return (len(tr), seeds[0], seeds[-1], first.shape, first[-1], float(np.asarray(tr[0].times)[-1]))
 
     def apply(self, obj, op, logical):
         lg = dict(logical)
         if op.startswith("C_"):
-            r = call(lambda: obj.compute(integration_fraction=0.05, dt=1e-2, show_progress=False, **self.ARGS[op]))
+            r = call(lambda: obj.compute(integration_fraction=0.05, show_progress=False, **self.ARGS[op]))
             lg["args"] = op
             return obj, r if isinstance(r, Exception) else self._summ(obj), lg
         if op == "R_traj":
